@@ -40,7 +40,8 @@ P("C04",
   technique="model-based + metamorphic PBT: structured subject/identity generators, own RFC 4514 renderer with generated spacing/alias/escaping; subset oracle on structured data; permutation/spacing/alias invariance",
   level_text="Exploration: verdicts of the identity check on generated leaf/CA subjects and identity lists compared with a subset model evaluated on the structured form (the harness never parses DNs), plus metamorphic invariances.",
   level_note="Trusts Go's pkix RDN encoding and the harness's escaper (cross-checked by the exact-match positive class).",
-  health={"class=match": 30, "class=subset": 30, "class=superset": 20, "class=nearmiss": 20, "class=ca-subject": 20, "class=uninterpretable": 10, "class=wildcard": 5, "class=no-x509-identity": 5})
+  health={"class=match": 30, "class=subset": 30, "class=superset": 20, "class=nearmiss": 20, "class=ca-subject": 20, "class=uninterpretable": 10, "class=wildcard": 5, "class=no-x509-identity": 5, "reused-verifier": 20},
+  fuzz=[{"name": "FuzzC04_Identities", "seconds": 180}])
 
 P("C05",
   technique="bounded-exhaustive enumeration of all result vectors {OK,NonRevokable,Unknown,Revoked}^n, n<=4 x action x interface x scheme, plus rapid-generated decorations; aggregation oracle + received-options check of a scripted validator",
